@@ -11,7 +11,10 @@ import (
 // Node returns the node with the given ID if it exists
 // in the graph, and nil otherwise.
 func (n *Network) Node(id int64) graph.Node {
-	return n.nodeWithID(id)
+	if node := n.nodeWithID(id); node != nil {
+		return node
+	}
+	return nil
 }
 
 // Nodes returns all the nodes in the graph.
